@@ -2198,16 +2198,10 @@ func (p *PikeVM) SearchWithSlotTableCapturesAt(haystack []byte, at int) *MatchWi
 
 	numGroups := p.nfa.CaptureCount()
 
-	if at == len(haystack) {
-		if p.matchesEmptyAt(haystack, at) {
-			return p.buildCapturesFromSlots(nil, at, at)
-		}
-		return nil
-	}
-	if len(haystack) == 0 {
-		if p.matchesEmpty() {
-			return p.buildCapturesFromSlots(nil, 0, 0)
-		}
+	// At end of input only an empty match is possible: reject quickly if there
+	// is none, otherwise run the regular search (it handles pos == len) so that
+	// groups taking part in the empty match are reported, e.g. (a*) on "".
+	if at == len(haystack) && !p.matchesEmptyAt(haystack, at) {
 		return nil
 	}
 	_ = numGroups
